@@ -51,7 +51,14 @@ R7 == TList(Nm(82, 7), S4, FALSE)
 R8 == TStruct(Nm(82, 8), <<Field(ff, U3, FALSE, FALSE), Field(fg, S1, TRUE, FALSE)>>, RPairs)
 R9 == TStruct(Nm(82, 9), <<Field(ff, E2, FALSE, FALSE), Field(fg, TLink, TRUE, TRUE), Field(fh, L1, FALSE, FALSE)>>, RMap(<<>>))
 
-Types == <<S1, S2, S3, S4, S5, L1, L2, M1, U1, U2, U3, E1, E2, M2, R1, R2, R3, R4, R5, R6, R7, R8, R9>>
+\* renames that collide with other field names (swapped, shifted)
+S6 == TStruct(Nm(83, 6), <<Field(fa, TInt, FALSE, FALSE), Field(fb, TInt, FALSE, FALSE), Field(fc, TString, TRUE, FALSE)>>,
+              RMap(<<fb, fa, fc>>))
+S7 == TStruct(Nm(83, 7), <<Field(fa, TInt, FALSE, FALSE), Field(fb, TInt, FALSE, FALSE)>>, RMap(<<fb, fc>>))
+\* a kinded union whose list-kind member is a listpairs struct, next to a map-kind member with renames
+U4 == TUnion(Nm(85, 4), <<S5, TString, S6>>, UKinded)
+
+Types == <<S1, S2, S3, S4, S5, L1, L2, M1, U1, U2, U3, E1, E2, M2, R1, R2, R3, R4, R5, R6, R7, R8, R9, S6, S7, U4>>
 
 \* ---- inhabitants (typed values in canonical type-level form)
 IntVals == {Scalar("int", <<0, 1>>), Scalar("int", <<0, 2>>)}
